@@ -11,6 +11,9 @@ import (
 // Re-exports of the verification hooks of internal/reflect (build tag verif).
 
 func VerifResolve(t reflect.Type) (string, error) { return ireflect.VerifResolve(t) }
+func VerifDesc(t reflect.Type, probes []int) (string, error) {
+	return ireflect.VerifDesc(t, probes)
+}
 func VerifSpan(reqs [][2]int) [][3]int            { return ireflect.VerifSpan(reqs) }
 func VerifBitset(ops [][2]int) []bool             { return ireflect.VerifBitset(ops) }
 func VerifDescMap(ops [][3]int) []int             { return ireflect.VerifDescMap(ops) }
